@@ -68,3 +68,19 @@ Theorem C19_comment_shared_refuted :
     run g c orc true fuel input = SyntaxErr 0.
 Proof. exists g_cmt, c_default, (orc_of tbl_cmt0), 100, in_cmt0. exact refuted_comment_shared. Qed.
 Print Assumptions C19_comment_shared_refuted.
+
+(* a Comment rule with two alternatives and no whitespace modifier anywhere:
+   `Model: B 'q' | 'b'; B: /[^;\n]+/ 'x'; Comment: /\/\/.*?$/ | /\/\*(.|\n)*?\*\//;` on `b//\n/**/`
+   is rejected without memoization (comment_positions is consulted while parsing comments, so the
+   block comment at 4 is jumped over) and accepted with it (the Comment rule's own cache entry
+   answers first).  So a memoizable comment model must be excluded from the class. *)
+Theorem C19_comment_model_refuted :
+  exists g c orc fuel input,
+    ctx_constant g = false /\
+    run g c orc false fuel input = SyntaxErr 8 /\
+    accepts (run g c orc true fuel input) = true.
+Proof.
+  exists g_cm2, c_default, (orc_of tbl_cm2), 100, in_cm2.
+  split; [reflexivity | exact refuted_comment_model].
+Qed.
+Print Assumptions C19_comment_model_refuted.
